@@ -1081,9 +1081,21 @@ class AttrParser(BaseParser):
             )
             res = DenseArrayBase.from_list(element_type, values)
         else:
+
+            def parse_float_element() -> float:
+                token = self._current_token
+                if token.kind == MLIRTokenKind.INTEGER_LIT and token.text[:2] in (
+                    "0x",
+                    "0X",
+                ):
+                    # Hexadecimal literals are the bit pattern of the float
+                    bits = self.parse_integer(allow_boolean=False, allow_negative=False)
+                    raw = bits.to_bytes(element_type.compile_time_size, "little")
+                    return element_type.unpack(raw, 1)[0]
+                return self.parse_float()
+
             values = self.parse_comma_separated_list(
-                self.Delimiter.NONE,
-                lambda: self.parse_float(),
+                self.Delimiter.NONE, parse_float_element
             )
             res = DenseArrayBase.from_list(element_type, values)
 
